@@ -189,11 +189,9 @@ def check_config(cfg, w, rep, strict_single=False):
             if g.path not in R.index_inserts or lf.path in R.commits:
                 continue
             # the options argument
-            optt = w.sym.of_operand(b, t.args[2])
+            optt = options_value(w, b, t.args[2])
             if optt[0] == "agg" and optt[1] == "put::WriteOpts":
-                f = dict(optt[3])
-                sri = f.get("sri")
-                if sri is not None and sri[0] == "agg" and sri[1].endswith("Option") and sri[2] == "None":
+                if is_tombstone_options(optt):
                     n_tomb += 1
                     rep.ob(cfg, "c-tombstone", fn_key(lf), "`%s` removes a key by inserting a record with constant None integrity" % short(lf.path))
                     continue
